@@ -1,21 +1,152 @@
-(* C12 -- stage 1: the model of the UNCHANGED tree refutes the property (DESIGN.md section 9 #11, #12). *)
-From LibTw2 Require Import Base.Res Model.Receiver.
+(* C12 -- a multi-part snapshot transfer reassembles exactly once.
+   Model: Model/Receiver.v (delta_chunks of snapshot/src/snap.rs, DeltaReceiver of
+   snapshot/src/receiver.rs, after the two repairs recorded in known_findings/C12.json).
+   This file holds only the property theorems, each closed by a lemma proved in
+   Proofs/Receiver*.v, and prints their assumptions.
+
+   Vocabulary (Proofs/ReceiverXfer.v, Proofs/ReceiverSteps.v, Proofs/ReceiverProofs.v):
+     item              := Part i (message number i of the transfer) | Other m (any other message)
+     item_msg ms it    := the message fed for an item (nth i ms / m)
+     item_ok T n it    := Part i: i < n;  Other m: msg_tick m < T and data of at most 2^26 bytes
+     seen items i      := Part i occurs in items;   covers n items := every i < n is seen
+     run s ms          := feed the messages in order: (final state, outcome per message);
+                          outcome = (Ok (Some delivery) | Ok None | Err e | Panic site, warnings in order)
+     wf s              := a state no call can panic from (parts < num_parts <= 32, ranges inside
+                          receive_buf, at most 2^26 bytes per stored part); new_receiver is wf
+     before s T        := nothing of tick T or newer has been accepted by s
+     delivered t b d c := {| delta_tick := b; tick := t; data_and_crc := None if d = [] else Some (d, c) |}
+     quiet it o        := Part: o is (Ok None, []) or (Err DuplicatePart, []);
+                          Other m: o is no panic and hands out at most tick (msg_tick m)
+     delivers T o      := o is Ok (Some rd) with rd_tick rd = T *)
+From LibTw2 Require Import Base.Res Model.Receiver Proofs.ReceiverBase Proofs.ReceiverChunks
+  Proofs.ReceiverSteps Proofs.ReceiverXfer Proofs.ReceiverProofs.
 From Coq Require Import ZArith List.
 Open Scope Z_scope.
 
+(* the sender never panics (for every i32 tick / base, also when their difference overflows) and cuts
+   the data into ceil(len/900) messages -- one SnapEmpty for no data -- of at most 900 bytes each,
+   all of the given tick, whose data concatenate to the original *)
+Theorem C12_chunks : forall data tick base crc, (length data <= 32 * 900)%nat ->
+  exists ms, delta_chunks tick base data crc = Ok ms
+    /\ length ms = Nat.max 1 ((length data + 899) / 900)
+    /\ (length ms <= 32)%nat
+    /\ concat (map msg_data ms) = data
+    /\ Forall (fun m => msg_tick m = tick /\ (length (msg_data m) <= 900)%nat) ms.
+Proof. exact chunks_total. Qed.
+
+(* EXACTLY ONCE. For every data length up to 32 parts, every tick / base / crc, every schedule `items`
+   (any order, any duplication, interleaved with arbitrary messages of older ticks) that contains all
+   parts, fed into any well-formed receiver that has not yet accepted this tick:
+   the schedule splits at the first position where all parts have been seen; the answer there is the
+   original data with the original tick, base tick and crc, without a warning; every answer before it
+   is quiet (stored / duplicate without warning, older ticks hand out only themselves); every answer
+   after it, to whatever message, is Err OldDelta. *)
+Theorem C12_exactly_once : forall data tick base crc ms s0 items,
+  (length data <= 32 * 900)%nat -> is_i32 base = true ->
+  delta_chunks tick base data crc = Ok ms ->
+  wf s0 = true -> before s0 tick = true ->
+  forallb (item_ok tick (length ms)) items = true ->
+  covers (length ms) items = true ->
+  exists pre i post opre opost,
+    items = pre ++ Part i :: post
+    /\ covers (length ms) pre = false /\ covers (length ms) (pre ++ [Part i]) = true
+    /\ snd (run s0 (map (item_msg ms) items))
+       = opre ++ (Ok (Some (delivered tick base data crc)), []) :: opost
+    /\ Forall2 quiet pre opre
+    /\ Forall (fun o => o = (Err OldDelta, [])) opost.
+Proof. exact exactly_once. Qed.
+
+(* the same, position by position: the answer to part i after the items `pre` is
+     Err OldDelta       if pre already contains all parts,
+     Err DuplicatePart  else if part i occurs in pre,
+     Ok (Some delivery) else if pre ++ [Part i] contains all parts,
+     Ok None            otherwise,
+   always without a warning; an older message is answered Err OldDelta once a part has been fed *)
+Theorem C12_every_answer : forall data tick base crc ms s0 items,
+  (length data <= 32 * 900)%nat -> is_i32 base = true ->
+  delta_chunks tick base data crc = Ok ms ->
+  wf s0 = true -> before s0 tick = true ->
+  forallb (item_ok tick (length ms)) items = true ->
+  answers_ok tick (length ms) (delivered tick base data crc) [] items (snd (run s0 (map (item_msg ms) items))).
+Proof. exact every_answer. Qed.
+
+(* as long as a part is missing nothing of the transfer is handed out *)
+Theorem C12_incomplete_never_delivers : forall data tick base crc ms s0 items,
+  (length data <= 32 * 900)%nat -> is_i32 base = true ->
+  delta_chunks tick base data crc = Ok ms ->
+  wf s0 = true -> before s0 tick = true ->
+  forallb (item_ok tick (length ms)) items = true ->
+  covers (length ms) items = false ->
+  Forall2 quiet items (snd (run s0 (map (item_msg ms) items))).
+Proof. exact incomplete_never_delivers. Qed.
+
+(* AT MOST ONCE, unconditionally: whatever messages are fed into whatever state (hostile part numbers,
+   inconsistent attributes, newer and older ticks), no tick is handed out twice *)
+Theorem C12_at_most_once : forall T ms s,
+  (length (filter (delivers T) (snd (run s ms))) <= 1)%nat.
+Proof. exact at_most_once. Qed.
+
+(* a message with a tick older than the newest seen changes nothing and yields OldDelta *)
+Theorem C12_old_ticks_harmless : forall s m t, newest_seen s = Some t -> msg_tick m < t ->
+  recv_step s m = (s, (Err OldDelta, [])).
+Proof. exact old_tick_refused. Qed.
+
+(* a (well-formed) message of a newer tick discards the partial older transfer: the receiver answers
+   and continues exactly like one (s2) that has the same previous tick and no transfer in progress;
+   afterwards every message of the replaced tick or older is refused *)
+Theorem C12_newer_replaces : forall s1 s2 c1 m,
+  msg_wellformed m = true -> r_cur s1 = Some c1 -> c_tick c1 < msg_tick m ->
+  r_prev s2 = r_prev s1 -> takes_fresh s2 (msg_tick m) = true ->
+  recv_step s1 m = recv_step s2 m
+  /\ newest_seen (fst (recv_step s1 m)) = Some (msg_tick m)
+  /\ forall m', msg_tick m' <= c_tick c1 ->
+       recv_step (fst (recv_step s1 m)) m' = (fst (recv_step s1 m), (Err OldDelta, [])).
+Proof. exact newer_replaces. Qed.
+
+(* no call panics from a well-formed state, well-formedness is kept, and what is handed out carries
+   the tick of the message that completed it *)
+Theorem C12_no_panic : forall s m, wf s = true -> msg_small m = true ->
+  wf (fst (recv_step s m)) = true
+  /\ is_panic (fst (snd (recv_step s m))) = false
+  /\ forall rd, fst (snd (recv_step s m)) = Ok (Some rd) -> rd_tick rd = msg_tick m.
+Proof. intros s m Hwf Hs. destruct (step_wf s m Hwf Hs) as [H1 [H2 H3]]. auto. Qed.
+
+(* non-vacuity: a 3-part transfer (2000 bytes, tick 10 on base 7) delivered out of order with a
+   duplicate and an older message in between, into a receiver that has completed tick 5 and holds
+   half of tick 7; then a newer tick replacing a half-received transfer *)
 Definition demo_data : bytes := map (fun i => Z.of_nat i mod 256) (seq 0 2000).
+Definition demo_s0 : receiver :=
+  fst (run new_receiver [MSnapSingle 5 1 0 [1; 2; 3]; MSnap 7 2 2 0 9 [4; 4]]).
+Definition demo_items : list item :=
+  [Part 2; Other (MSnap 9 1 2 1 0 [7]); Part 0; Part 2; Part 1; Part 1; Other (MSnapEmpty 8 1)].
 
-Definition has_warning (os : list outcome) : bool := existsb (fun o => negb (length (snd o) =? 0)%nat) os.
+Example C12_nonvacuous : exists ms,
+  delta_chunks 10 7 demo_data 42 = Ok ms /\ length ms = 3%nat
+  /\ wf demo_s0 = true /\ before demo_s0 10 = true /\ r_cur demo_s0 <> None
+  /\ forallb (item_ok 10 3) demo_items = true /\ covers 3 demo_items = true
+  /\ snd (run demo_s0 (map (item_msg ms) demo_items))
+     = [(Ok None, []); (Err OldDelta, []); (Ok None, []); (Err DuplicatePart, []);
+        (Ok (Some (delivered 10 7 demo_data 42)), []); (Err OldDelta, []); (Err OldDelta, [])]
+  /\ (* a newer tick replaces the half-received transfer *)
+     let s1 := fst (run demo_s0 (map (item_msg ms) [Part 2; Part 0])) in
+     let s2 := {| r_prev := r_prev s1; r_cur := None; r_parts := []; r_buf := []; r_result := [] |} in
+     msg_wellformed (MSnapSingle 11 10 3 [9]) = true /\ takes_fresh s2 11 = true
+     /\ snd (recv_step s1 (MSnapSingle 11 10 3 [9]))
+        = (Ok (Some {| rd_delta_tick := 1; rd_tick := 11; rd_data_and_crc := Some ([9], 3) |}), [])
+     /\ snd (recv_step (fst (recv_step s1 (MSnapSingle 11 10 3 [9]))) (nth 1 ms dflt_msg)) = (Err OldDelta, []).
+Proof.
+  eexists. split; [vm_compute; reflexivity|].
+  split; [vm_compute; reflexivity|]. split; [vm_compute; reflexivity|]. split; [vm_compute; reflexivity|].
+  split; [vm_compute; discriminate|]. split; [vm_compute; reflexivity|]. split; [vm_compute; reflexivity|].
+  split; [vm_compute; reflexivity|]. vm_compute. repeat split.
+Qed.
 
-(* #11: a consistent 3-part transfer, fed in order into a fresh receiver, warns DifferingAttributes *)
-Theorem C12_exactly_once_refuted : exists tick base crc data ms,
-  delta_chunks tick base data crc = Ok ms /\ has_warning (snd (run new_receiver ms)) = true.
-Proof. exists 10, 7, 42, demo_data. eexists. split; [vm_compute; reflexivity|vm_compute; reflexivity]. Qed.
-
-(* #12: delta_chunks panics for i32 arguments *)
-Theorem C12_chunks_total_refuted : exists tick base, is_i32 tick = true /\ is_i32 base = true
-  /\ delta_chunks tick base [] 0 = Panic site_chunks_sub.
-Proof. exists 2147483647, (-1). vm_compute. repeat split. Qed.
-
-Print Assumptions C12_exactly_once_refuted.
-Print Assumptions C12_chunks_total_refuted.
+Print Assumptions C12_chunks.
+Print Assumptions C12_exactly_once.
+Print Assumptions C12_every_answer.
+Print Assumptions C12_incomplete_never_delivers.
+Print Assumptions C12_at_most_once.
+Print Assumptions C12_old_ticks_harmless.
+Print Assumptions C12_newer_replaces.
+Print Assumptions C12_no_panic.
+Print Assumptions C12_nonvacuous.
